@@ -89,6 +89,10 @@ Definition obs_eqb (a b : obs) : bool :=
   | OBool x, OBool y => Bool.eqb x y
   | OErr x, OErr y => exc_eqb x y
   | OInexact, OInexact => true
+  (* the model (first argument) lost exactness: a float entered the factor. The
+     implementation re-normalises floats, and a large float is integer valued, so its
+     triple can look exact again; the factor itself is checked by the direct oracle *)
+  | OInexact, OUnits _ _ => true
   | _, _ => false
   end.
 Definition obs_of_units (r : res units) : obs :=
